@@ -43,6 +43,10 @@ pub struct Sc {
     /// C17: the pre-existing areas were created 16 bytes long and grown to their length by mem_resize_section
     #[serde(default)]
     pub grown_blockers: bool,
+    /// C17, machines from new(): the code sits at 0x100, below every address the placement loops probe, so
+    /// that the pre-existing areas are the topmost ones
+    #[serde(default)]
+    pub code_low: bool,
 }
 
 pub struct E4Engine;
@@ -165,9 +169,9 @@ pub fn gen_img(r: &mut Rng, entry_code: &[u8], max_segs: u64) -> ImgSpec {
 
 fn gen_c15(r: &mut Rng, idx: u64) -> Sc {
     if idx < BUNDLED.len() as u64 {
-        return Sc { kind: "c15".into(), base: Base::Bundled { name: BUNDLED[idx as usize].0.to_string() }, muts: vec![], argv: vec![], envp: vec![], stack_len: 0, blockers: vec![], grown_blockers: false };
+        return Sc { kind: "c15".into(), base: Base::Bundled { name: BUNDLED[idx as usize].0.to_string() }, muts: vec![], argv: vec![], envp: vec![], stack_len: 0, blockers: vec![], grown_blockers: false, code_low: false };
     }
-    Sc { kind: "c15".into(), base: Base::Gen { spec: gen_img(r, &[], 8) }, muts: vec![], argv: vec![], envp: vec![], stack_len: 0, blockers: vec![], grown_blockers: false }
+    Sc { kind: "c15".into(), base: Base::Gen { spec: gen_img(r, &[], 8) }, muts: vec![], argv: vec![], envp: vec![], stack_len: 0, blockers: vec![], grown_blockers: false, code_low: false }
 }
 
 fn strings(r: &mut Rng, n: u64, long_ok: bool) -> Vec<String> {
@@ -243,7 +247,7 @@ fn gen_c17(r: &mut Rng, thorough: bool) -> Sc {
     let pops = (3 + argc + envc) as usize;
     let code = observer_code(pops);
     let base = if code.len() <= 0x2000 && r.chance(1, 2) { Base::Gen { spec: gen_img(r, &code, 4) } } else { Base::New };
-    Sc { kind: "c17".into(), base, muts: vec![], argv, envp, stack_len, blockers, grown_blockers: r.chance(1, 3) }
+    Sc { kind: "c17".into(), base, muts: vec![], argv, envp, stack_len, blockers, grown_blockers: r.chance(1, 3), code_low: r.chance(1, 3) }
 }
 
 /// the enumerated storage faults on the bundled images: every header truncation offset, a stride
@@ -376,7 +380,7 @@ fn random_mutation(r: &mut Rng, bytes: &[u8]) -> Mutation {
 
 fn gen_c16(r: &mut Rng, idx: u64) -> Sc {
     let en = enumerated();
-    let mk = |base: Base, muts: Vec<Mutation>| Sc { kind: "c16".into(), base, muts, argv: vec![], envp: vec![], stack_len: 0, blockers: vec![], grown_blockers: false };
+    let mk = |base: Base, muts: Vec<Mutation>| Sc { kind: "c16".into(), base, muts, argv: vec![], envp: vec![], stack_len: 0, blockers: vec![], grown_blockers: false, code_low: false };
     if (idx as usize) < en.len() {
         let (bi, m) = &en[idx as usize];
         return mk(Base::Bundled { name: BUNDLED[*bi].0.to_string() }, m.clone());
@@ -610,6 +614,7 @@ fn run_c17(sc: &Sc, ctx: &mut Ctx) {
     let code = observer_code(n_entries as usize);
     install_ax_rng(11);
     let made = match &sc.base {
+        Base::New if sc.code_low && code.len() <= 0xe00 => catch(|| Axecutor::new(&code, 0x100, 0x100)),
         Base::New => catch(|| Axecutor::new(&code, 0x40_0000, 0x40_0000)),
         _ => {
             let (bytes, _) = image_bytes(sc);
